@@ -33,7 +33,7 @@ Proof.
 Qed.
 
 Section Build.
-Variables (lywd lylen ylen ywd wk : Z) (wdm : list Z).
+Variables (lylen nylen ylen ywd wk : Z) (wdm : list Z).
 
 Definition firstwkst := (7 - ywd + wk) mod 7.
 Definition no1wkst := if 4 <=? firstwkst then 0 else firstwkst.
@@ -50,7 +50,13 @@ Definition f_op (mask : list Z) (n : Z) : res (list Z) :=
               if negb (no1wkst =? firstwkst) then i0 - (7 - firstwkst) else i0)
            else no1wkst in
   mark_week 7 wdm wk mask i.
-(* phase 2: week 1 of next year *)
+(* phase 2: week 1 of next year, also addressed as -(number of weeks of next year) *)
+Definition nnumweeks : Z :=
+  let nyearweekday := (ywd + ylen) mod 7 in
+  let nno1wkst := (7 - nyearweekday + wk) mod 7 in
+  let nwyearlen := if 4 <=? nno1wkst then nylen + (nyearweekday - wk) mod 7 else nylen - nno1wkst in
+  nwyearlen / 7 + (nwyearlen mod 7) / 4.
+Definition c2 (n : Z) : bool := (n =? 1) || (n =? - nnumweeks).
 Definition g_op (mask : list Z) : res (list Z) :=
   let i0 := no1wkst + numweeks * 7 in
   let i := if negb (no1wkst =? firstwkst) then i0 - (7 - firstwkst) else i0 in
@@ -59,50 +65,43 @@ Definition g_op (mask : list Z) : res (list Z) :=
 Definition h_op (mask : list Z) : res (list Z) :=
   fold_res (fun mask i => py_set mask i 1) (zrange 0 no1wkst) mask.
 Definition lnum_c : Z :=
+  let lywd := (ywd - lylen) mod 7 in
   let lno1wkst := (7 - lywd + wk) mod 7 in
   if 4 <=? lno1wkst then 52 + ((lylen + (lywd - wk) mod 7) mod 7) / 4
-  else 52 + ((ylen - no1wkst) mod 7) / 4.
+  else (let lwyearlen := lylen - lno1wkst in lwyearlen / 7 + (lwyearlen mod 7) / 4).
 Definition c3 (n : Z) : bool := (n =? -1) || (n =? lnum_c).
 
+Lemma memZ_or (a b : Z) L :
+  memZ a L || memZ b L = existsb (fun n => (n =? a) || (n =? b)) L.
+Proof.
+  unfold memZ. induction L as [|x t IH]; cbn [existsb]; [reflexivity|]. rewrite <- IH.
+  rewrite (Z.eqb_sym a x), (Z.eqb_sym b x).
+  destruct (x =? a), (x =? b), (existsb (Z.eqb a) t), (existsb (Z.eqb b) t); reflexivity.
+Qed.
+
+Lemma memZ_if (c : Z) L :
+  memZ (if negb (memZ (-1) L) then c else -1) L = existsb (fun n => (n =? -1) || (n =? c)) L.
+Proof.
+  rewrite <- memZ_or. destruct (memZ (-1) L) eqn:E; cbn [negb orb]; [exact E|reflexivity].
+Qed.
+
 Lemma build_unfold L :
-  build_wnomask_core (Ok (lywd, lylen)) ylen ywd wk wdm L =
+  build_wnomask_core lylen nylen ylen ywd wk wdm L =
   do m1 <- fold_res f_op L (zeros len0);
-  do m2 <- (if memZ 1 L then g_op m1 else Ok m1);
+  do m2 <- (if existsb c2 L then g_op m1 else Ok m1);
   if negb (no1wkst =? 0) then
     if existsb c3 L then h_op m2 else Ok m2
   else Ok m2.
 Proof.
-  unfold build_wnomask_core, f_op, g_op, h_op, c3, lnum_c, no1wkst, numweeks, wyearlen, firstwkst,
-    len0, zeros, py_repeat.
-  destruct (4 <=? (7 - ywd + wk) mod 7) eqn:E4; cbv zeta.
+  unfold build_wnomask_core, f_op, g_op, h_op, c2, c3, nnumweeks, lnum_c, no1wkst, numweeks, wyearlen,
+    firstwkst, len0, zeros, py_repeat. cbv zeta.
+  rewrite memZ_or.
+  destruct (4 <=? (7 - ywd + wk) mod 7) eqn:E4.
   - reflexivity.
   - destruct (fold_res _ L _) as [m1|e]; cbn [bind]; [|reflexivity].
-    destruct (if memZ 1 L then _ else _) as [m2|e]; cbn [bind]; [|reflexivity].
+    destruct (if existsb _ L then _ else _) as [m2|e]; cbn [bind]; [|reflexivity].
     destruct (negb ((7 - ywd + wk) mod 7 =? 0)); [|reflexivity].
-    assert (C : forall c, memZ (if memZ (-1) L then -1 else c) L =
-                          existsb (fun n => (n =? -1) || (n =? c)) L).
-    { intros c. unfold memZ. destruct (existsb (Z.eqb (-1)) L) eqn:E1.
-      - rewrite E1. symmetry. apply existsb_exists. apply existsb_exists in E1.
-        destruct E1 as (x & Hx & Ex). exists x. split; [exact Hx|].
-        apply Z.eqb_eq in Ex. subst x. reflexivity.
-      - induction L as [|x t IHt]; [reflexivity|]. cbn [existsb] in *.
-        apply orb_false_iff in E1. destruct E1 as [Ea Eb]. rewrite (IHt Eb).
-        rewrite (Z.eqb_sym c x). rewrite (Z.eqb_sym (-1) x) in Ea. rewrite Ea. reflexivity. }
-    destruct (negb (memZ (-1) L)) eqn:EM; cbn [bind].
-    + apply negb_true_iff in EM. specialize (C (
-        if 4 <=? (7 - lywd + wk) mod 7
-        then 52 + (lylen + (lywd - wk) mod 7) mod 7 / 4
-        else 52 + (ylen - (7 - ywd + wk) mod 7) mod 7 / 4)). rewrite EM in C.
-      destruct (4 <=? (7 - lywd + wk) mod 7); cbn [bind]; rewrite C; reflexivity.
-    + apply negb_false_iff in EM. specialize (C 0). rewrite EM in C.
-      assert (C2 : existsb (fun n => (n =? -1) || (n =? 0)) L = true -> True) by auto.
-      unfold memZ in EM.
-      assert (E3 : forall c, existsb (fun n => (n =? -1) || (n =? c)) L = true).
-      { intros c. apply existsb_exists. apply existsb_exists in EM. destruct EM as (x & Hx & Ex).
-        exists x. split; [exact Hx|]. apply Z.eqb_eq in Ex. subst x. reflexivity. }
-      rewrite E3. unfold memZ. apply existsb_exists in EM. destruct EM as (x & Hx & Ex).
-      assert (EM' : existsb (Z.eqb (-1)) L = true) by (apply existsb_exists; exists x; auto).
-      rewrite EM'. reflexivity.
+    rewrite memZ_if. reflexivity.
 Qed.
 
 Lemma additive_f n : additive (fun m => f_op m n).
@@ -114,7 +113,7 @@ Proof. unfold g_op. destruct (_ <? ylen); [apply additive_mark_week|apply additi
 Lemma additive_h : additive h_op.
 Proof. unfold h_op. apply additive_fold. intros i. apply additive_py_set. Qed.
 
-Definition build (L : list Z) := build_wnomask_core (Ok (lywd, lylen)) ylen ywd wk wdm L.
+Definition build (L : list Z) := build_wnomask_core lylen nylen ylen ywd wk wdm L.
 Definition bit (L : list Z) (j : nat) : bool :=
   match build L with Ok m => nzb (nth j m 0) | Err _ => false end.
 
@@ -125,7 +124,7 @@ Lemma build_formula (a : Z -> list Z) (g h : list Z) L :
   exists m, build L = Ok m /\ length m = len0 /\
     forall j, nzb (nth j m 0) =
       existsb (fun n => nzb (nth j (a n) 0)) L ||
-      (memZ 1 L && nzb (nth j g 0)) ||
+      (existsb c2 L && nzb (nth j g 0)) ||
       (negb (no1wkst =? 0) && existsb c3 L && nzb (nth j h 0)).
 Proof.
   intros HA HG HH. unfold build. rewrite build_unfold.
@@ -137,14 +136,14 @@ Proof.
   { destruct additive_h as [_ H2]. rewrite (H2 _ _ HH). apply repeat_length. }
   assert (G1 : g_op m1 = Ok (overlay m1 g)).
   { rewrite (additive_on_zeros g_op m1 additive_g). rewrite L1. fold (zeros len0). rewrite HG. reflexivity. }
-  set (m2 := if memZ 1 L then overlay m1 g else m1).
-  assert (E2 : (if memZ 1 L then g_op m1 else Ok m1) = Ok m2).
-  { unfold m2. destruct (memZ 1 L); [exact G1|reflexivity]. }
+  set (m2 := if existsb c2 L then overlay m1 g else m1).
+  assert (E2 : (if existsb c2 L then g_op m1 else Ok m1) = Ok m2).
+  { unfold m2. destruct (existsb c2 L); [exact G1|reflexivity]. }
   assert (L2 : length m2 = len0).
-  { unfold m2. destruct (memZ 1 L); [rewrite overlay_length; lia|exact L1]. }
+  { unfold m2. destruct (existsb c2 L); [rewrite overlay_length; lia|exact L1]. }
   assert (P2 : forall j, nzb (nth j m2 0) =
-            existsb (fun n => nzb (nth j (a n) 0)) L || (memZ 1 L && nzb (nth j g 0))).
-  { intros j. unfold m2. destruct (memZ 1 L); cbn [andb].
+            existsb (fun n => nzb (nth j (a n) 0)) L || (existsb c2 L && nzb (nth j g 0))).
+  { intros j. unfold m2. destruct (existsb c2 L); cbn [andb].
     - unfold nzb. rewrite nth_overlay by lia. fold (nzb (nth j m1 0)). rewrite P1. reflexivity.
     - rewrite orb_false_r. apply P1. }
   rewrite E2. cbn [bind].
@@ -174,21 +173,20 @@ Proof.
   exists m. split; [exact Em|]. split; [exact Lm|].
   intros j. rewrite Pm.
   assert (S : forall n, In n L -> bit [n] j =
-     nzb (nth j (a n) 0) || ((n =? 1) && nzb (nth j g 0)) ||
+     nzb (nth j (a n) 0) || (c2 n && nzb (nth j g 0)) ||
      (negb (no1wkst =? 0) && c3 n && nzb (nth j h 0))).
   { intros n Hn.
     assert (HA1 : forall x, In x [n] -> f_op (zeros len0) x = Ok (a x)).
     { intros x [<-|[]]. apply HA'. exact Hn. }
     destruct (build_formula a g h [n] HA1 HG HH) as (mn & En & _ & Pn).
-    unfold bit. rewrite En. rewrite Pn. cbn [existsb memZ].
-    rewrite !orb_false_r. rewrite (Z.eqb_sym 1 n). reflexivity. }
-  clear Pm Em HA HA'. induction L as [|x t IH]; cbn [existsb memZ].
+    unfold bit. rewrite En. rewrite Pn. cbn [existsb].
+    rewrite !orb_false_r. reflexivity. }
+  clear Pm Em HA HA'. induction L as [|x t IH]; cbn [existsb].
   - cbn. rewrite andb_false_r. reflexivity.
   - rewrite (S x (or_introl eq_refl)).
-    rewrite <- (IH (fun n Hn => S n (or_intror Hn))). unfold memZ.
-    rewrite (Z.eqb_sym 1 x).
-    destruct (nzb (nth j (a x) 0)), (x =? 1), (nzb (nth j g 0)), (negb (no1wkst =? 0)), (c3 x),
-      (nzb (nth j h 0)), (existsb (fun n => nzb (nth j (a n) 0)) t), (existsb (Z.eqb 1) t),
+    rewrite <- (IH (fun n Hn => S n (or_intror Hn))).
+    destruct (nzb (nth j (a x) 0)), (c2 x), (nzb (nth j g 0)), (negb (no1wkst =? 0)), (c3 x),
+      (nzb (nth j h 0)), (existsb (fun n => nzb (nth j (a n) 0)) t), (existsb c2 t),
       (existsb c3 t); reflexivity.
 Qed.
 End Build.
